@@ -336,7 +336,30 @@ def k_crc_helpers(ctx, data):
         ctx.check("tc.crc", ok and b == d[:-2] + crc16(d[:-2]).to_bytes(2, "big"), "generate_packet_crc", "", case, observed=b if ok else repr(b))
 
 
-KINDS = {"tc_wrong_type": k_tc_wrong_type, "crc_helpers": k_crc_helpers, "tc": k_tc, "tc_refuse": k_tc_refuse, "tc_short": k_tc_short, "sec_header": k_sec_header, "view_history": k_view_history}
+def k_same_shape_series(ctx, seed):
+    """Many telecommands one after the other that agree in every header field and in the *length* of their application data
+    and differ only in its content, each with a fresh data object that is released again (what a command loop does): anything
+    remembered per object identity, per length or per header comes back for the wrong packet."""
+    import random
+    tcm, sp, check_pus_crc = _imp()
+    r = random.Random(f"tcseries/{seed}")
+    case = {"k": "same_shape_series", "seed": seed}
+    ctx.case("tc_same_shape_series", seed, sample=case)
+    f = (r.getrandbits(11), r.getrandbits(14), r.getrandbits(8), r.getrandbits(8), r.getrandbits(16), r.getrandbits(4))
+    n = r.choice((0, 1, 16, 255, 256, 257, 300, 1024, 4096))
+    for i in range(r.choice((6, 12, 40))):
+        data = bytes(rand_bytes(r, n)) if r.random() < 0.8 else bytearray(rand_bytes(r, n))
+        want = R.tc(f[0], f[1], f[2], f[3], f[4], f[5], bytes(data))
+        t = build("ctor", f[0], f[1], f[2], f[3], f[4], f[5], data)
+        how = r.choice(("pack", "pack", "view", "pack_twice"))
+        ok, got = attempt(lambda: bytes(t.to_space_packet().pack()) if how == "view" else (t.pack(), bytes(t.pack()))[1] if how == "pack_twice" else bytes(t.pack()))
+        if not ctx.check("tc.series", ok and got == want, "packet_of_an_earlier_telecommand_of_the_same_shape_shows", f"{_octet_diff(got, want) if ok else 'raised'}/len={_lenclass(n)}", dict(case, index=i, how=how),
+                         observed=got[-8:] if ok else repr(got), expected=want[-8:]):
+            return
+        del t, data
+
+
+KINDS = {"same_shape_series": k_same_shape_series, "tc_wrong_type": k_tc_wrong_type, "crc_helpers": k_crc_helpers, "tc": k_tc, "tc_refuse": k_tc_refuse, "tc_short": k_tc_short, "sec_header": k_sec_header, "view_history": k_view_history}
 ROUTES = ("ctor", "from_sp_header", "composite")
 
 
@@ -414,6 +437,8 @@ def run(ctx):
              rand_uint(r, 4), rnd_data(n), model_fed=r.random() < 0.5)
     for j in range(ctx.n(1500, 150_000)):
         k_view_history(ctx, ctx.seed * 1_000_003 + ctx.shard[0] * 100_003 + j)
+    for j in range(ctx.n(120, 12_000)):
+        k_same_shape_series(ctx, ctx.seed * 1_000_003 + ctx.shard[0] * 100_003 + j)
     # telecommands whose running CRC is exactly 0x0000 / 0xFFFF after the primary header, or after both headers
     for where in ("primary", "secondary"):
         for target in (0x0000, 0xFFFF):
